@@ -452,6 +452,9 @@ def objective_margin(pr, w, b, dist, tol, crit, exact, Pref):
     if exact:
         return tol * dist * (1 + REL) + rounding
     Lc = pr.unit_lipschitz(w, b, mode="local")
+    Lg = pr.unit_lipschitz(w, b, mode="global")      # the constants CD solvers step with
+    if Lg is not None:
+        Lc = np.maximum(Lc, Lg)
     Lsum, Lmax = float(np.sum(Lc)), float(np.max(Lc, initial=0.0))
     nunits = len(Lc)
     if crit == "fixpoint":
